@@ -64,12 +64,29 @@ def draw_cfg(rng, *, jac_modes=("callable",), small=True, allow_scaler=True, all
     cfg["gtol"] = float(choice(rng, [0.0, 1e-10, 1e-6, 1e-5, 1e-3]))
     cfg["eps_SY"] = float(choice(rng, [2.2e-16, 2.2e-16, 1e-8, 1e-2]))
     cfg["jac"] = choice(rng, jac_modes)
+    if rng.random() < 0.15:
+        cfg["args"] = True
+    if rng.random() < 0.2:
+        cfg["bounds_style"] = "list_none"
     if allow_scaler and rng.random() < 0.25:
         if rng.random() < 0.3:
             cfg["scaler"] = "packaged"
         else:
             cfg["scaler"] = {"const": float(10.0 ** rng.uniform(-3, 3))}
     return cfg
+
+
+def maybe_long(rng, spec, cfg, p=0.08):
+    """A share of the runs is larger and longer than the swarm's default (n up to 40,
+    up to 80 iterations, memory up to 20): thresholds hidden behind sizes are reached too."""
+    if rng.random() >= p:
+        return False
+    if spec.get("family") != "rosen":
+        spec["n"] = int(rng.integers(13, 41))
+    cfg["maxiter"] = int(rng.integers(30, 81))
+    cfg["maxcor"] = int(rng.integers(1, 21))
+    cfg["maxls"] = 20
+    return True
 
 
 def full_cfg(cfg):
